@@ -45,6 +45,7 @@ def run_scenario(ctx, report, name, spec, timeout_ms, gc=False, fuel=None):
 
         def m_dbg(I, st, c, args, cont, depth, site):
             captured.append((st, args[1]))
+            st.meta['dbg_captures'] = st.meta.get('dbg_captures', ()) + ((st.fork(), args[1]),)
             # run the REAL pipeline for the addresses of interest on forks of the current state
             cont(st, unit())
         I.add_model(r'ModuleDebugData as (emit::)?Emit>::emit$', m_dbg, 'ModuleDebugData::emit intercepted: the address pipeline is driven from here, gimli is not encoded', front=True)
@@ -64,9 +65,13 @@ def run_scenario(ctx, report, name, spec, timeout_ms, gc=False, fuel=None):
                     if rec is PANIC:
                         vios.append({'key': 'emit.panic', 'what': 'emit panics: %r' % (pc.pipeline_panic_events(s2)[:2],)})
                         continue
-                    if len(captured) != 1:
-                        raise Inconclusive('debug emission not reached exactly once (%d)' % len(captured))
-                    sd, cxref = captured[0]
+                    caps = s2.meta.get('dbg_captures', ())
+                    if len(caps) != 1:
+                        raise Inconclusive('debug emission not reached exactly once on this path (%d)' % len(caps))
+                    sd, cxref = caps[0]
+                    # the interception state precedes the rest of the emission: conjoin what the path learnt afterwards
+                    sd = sd.fork()
+                    sd.pc = list(s2.pc)
                     OUT = modcmp.out_module(rec)
                     IN = modcmp.in_module(spec)
                     keep = None
@@ -343,9 +348,14 @@ def run(tier, seed, only=None):
             run_file_index_kernel(ctx, report)
     items = [('scen', 'three-functions', lambda: c11.spec_for(3), False), ('scen', 'three-functions+gc', gc_spec, True), ('scen', 'resized-function', shrink_spec, False),
              ('scen', 'resized-function/leb3-to-1', shrink2_spec, False), ('leb', 'O10.4', None, False), ('file', 'O10.5', None, False)]
+    from obligations import gen
+    gl = gen.generated(tier, seed, n_quick=2, n_thorough=18)
+    for name, sp in gl:
+        items.append(('scen', name, (lambda sp=sp: sp), False))
+        items.append(('scen', name + '+gc', (lambda sp=sp: sp), True))
     items = [i for i in items if not only or i[1] in only]
     pc.run_parallel(ctx, report, job, items)
-    report.bounds = {'addresses': 'every instruction start, body start and entry end of 3 functions (if/else, else-less if, block, loop, nop); with and without GC removing a function', 'output sizes': 'symbolic (as in C11), so both size-LEB lengths of every resized function are covered',
+    report.bounds = {'generated': gen.bounds_text(tier, len(gl)) + ' x {emit, gc+emit}', 'addresses': 'every instruction start, body start and entry end of 3 functions (if/else, else-less if, block, loop, nop); with and without GC removing a function', 'output sizes': 'symbolic (as in C11), so both size-LEB lengths of every resized function are covered',
                      'LEB kernel': 'all 64-bit body sizes >= 1'}
     report.assumptions = ['address convention (LLVM): addresses are relative to the first byte of the code-section body; rows on opcode bytes; high_pc / end of sequence = end of the entry; low_pc / sequence base of the INPUT = first byte after the size LEB, and its image must lie inside the function\'s own output entry at or before its first emitted instruction (the range / sequence covers every instruction of that function and nothing of another one)',
                           'gimli parsing/writing, the row loop of convert_line_program and attribute walking are NOT encoded; native confirmation uses DWARF synthesised with gimli::write (vreplay dwarf)']
